@@ -1242,22 +1242,10 @@ func statsFieldPath(addr ssa.Value) string {
 // s4CoUpdate (rule S4): in a loop-free record* function, the integer counters that are accumulated (x = x + …) are
 // accumulated on the same paths: no path from the entry to a return adds to one of them and not to another. A recount
 // of the traffic counts each packet in all of them (a packet has at least its header bytes) or in none.
-func s4CoUpdate(p *Prog, o *obls, fn *ssa.Function, ss statsSpec) {
-	// loop-free?
-	idx := map[*ssa.BasicBlock]int{}
-	for i, b := range fn.Blocks {
-		idx[b] = i
-	}
-	for _, b := range fn.Blocks {
-		for _, s := range b.Succs {
-			if s.Dominates(b) {
-				return
-			}
-		}
-	}
-	ids := map[string]int{}
-	var names []string
-	acc := map[*ssa.Store]int{}
+// s4Accumulators: the integer counters of the exported stats structs that fn accumulates itself (x = x + …), by
+// field path.
+func s4Accumulators(fn *ssa.Function, ss statsSpec) map[*ssa.Store]string {
+	out := map[*ssa.Store]string{}
 	instrsOf(fn, func(in ssa.Instruction) {
 		st, ok := in.(*ssa.Store)
 		if !ok || !throughExportedStats(st.Addr, ss.pkgPath) {
@@ -1270,30 +1258,100 @@ func s4CoUpdate(p *Prog, o *obls, fn *ssa.Function, ss statsSpec) {
 		if !ok || bo.Op != token.ADD {
 			return
 		}
-		self := false
 		for _, op := range []ssa.Value{bo.X, bo.Y} {
 			if u, ok := op.(*ssa.UnOp); ok && u.Op == token.MUL {
 				if addrRoot(u.X) == addrRoot(st.Addr) && statsFieldPath(u.X) == statsFieldPath(st.Addr) {
-					self = true
+					out[st] = statsFieldPath(st.Addr)
 				}
 			}
 		}
-		if !self {
-			return
-		}
-		k := statsFieldPath(st.Addr)
-		if _, ok := ids[k]; !ok {
-			if len(names) >= 5 {
-				return
-			}
-			ids[k] = len(names)
+	})
+	return out
+}
+
+// s4HelperAccumulates: a loop-free helper that takes the stats value and returns it, accumulating the same counters
+// on every path (addReceived(stats, hdr, payload) stats): the counters it always accumulates.
+func s4HelperAccumulates(p *Prog, h *ssa.Function, ss statsSpec) []string {
+	if h.Blocks == nil || len(naturalLoops(h)) > 0 {
+		return nil
+	}
+	accs := s4Accumulators(h, ss)
+	if len(accs) == 0 {
+		return nil
+	}
+	var names []string
+	seen := map[string]bool{}
+	for _, k := range accs {
+		if !seen[k] {
+			seen[k] = true
 			names = append(names, k)
 		}
-		acc[st] = ids[k]
+	}
+	sort.Strings(names)
+	for _, k := range names {
+		before, _ := pathCounts(h, func(in ssa.Instruction) bool {
+			st, ok := in.(*ssa.Store)
+			return ok && accs[st] == k
+		})
+		for _, b := range h.Blocks {
+			if ret, ok := b.Instrs[len(b.Instrs)-1].(*ssa.Return); ok && b != h.Recover && before[ret] != 2 {
+				return nil
+			}
+		}
+	}
+	return names
+}
+
+func s4CoUpdate(p *Prog, o *obls, fn *ssa.Function, ss statsSpec) {
+	// loop-free?
+	for _, b := range fn.Blocks {
+		for _, s := range b.Succs {
+			if s.Dominates(b) {
+				return
+			}
+		}
+	}
+	ids := map[string]int{}
+	var names []string
+	acc := map[ssa.Instruction][]int{}
+	idOf := func(k string) (int, bool) {
+		if id, ok := ids[k]; ok {
+			return id, true
+		}
+		if len(names) >= 5 {
+			return 0, false
+		}
+		ids[k] = len(names)
+		names = append(names, k)
+		return ids[k], true
+	}
+	for st, k := range s4Accumulators(fn, ss) {
+		if id, ok := idOf(k); ok {
+			acc[st] = append(acc[st], id)
+		}
+	}
+	// calls of by-value helpers that always accumulate a fixed set of counters count as accumulating them here
+	helperUsed := false
+	instrsOf(fn, func(in ssa.Instruction) {
+		c, ok := in.(*ssa.Call)
+		if !ok {
+			return
+		}
+		h := c.Call.StaticCallee()
+		if h == nil || !p.InUniverse(h) || h == fn || h.Pkg != fn.Pkg {
+			return
+		}
+		for _, k := range s4HelperAccumulates(p, h, ss) {
+			if id, ok := idOf(k); ok {
+				acc[c] = append(acc[c], id)
+				helperUsed = true
+			}
+		}
 	})
 	if len(names) < 2 {
 		return
 	}
+	_ = helperUsed
 	full := uint32(1)<<uint(len(names)) - 1
 	// state: set of subsets (bit i of the word = subset i is possible)
 	in := map[*ssa.BasicBlock]uint64{fn.Blocks[0]: 1}
@@ -1316,16 +1374,18 @@ func s4CoUpdate(p *Prog, o *obls, fn *ssa.Function, ss statsSpec) {
 		b := order[i]
 		st := in[b]
 		for _, ins := range b.Instrs {
-			if s, ok := ins.(*ssa.Store); ok {
-				if id, ok := acc[s]; ok {
-					var nst uint64
-					for sub := uint32(0); sub <= full; sub++ {
-						if st&(1<<sub) != 0 {
-							nst |= 1 << (sub | 1<<uint(id))
-						}
-					}
-					st = nst
+			if idl, ok := acc[ins]; ok {
+				var add uint32
+				for _, id := range idl {
+					add |= 1 << uint(id)
 				}
+				var nst uint64
+				for sub := uint32(0); sub <= full; sub++ {
+					if st&(1<<sub) != 0 {
+						nst |= 1 << (sub | add)
+					}
+				}
+				st = nst
 			}
 			if r, ok := ins.(*ssa.Return); ok {
 				for sub := uint32(1); sub < full; sub++ {
